@@ -166,13 +166,22 @@ def others(rep, rng, tier):
             # buffer-local shuffle: model with the recorded draws + oracle
             bs = rng.choice([1, 2, 3, 4, n + 1])
             rr = RecRng(seed)
-            lout = list(ds.shuffle(reshuffle=True, buffer_size=bs, rng=rr))
+            # the stage iterated directly, through copies, and below another stage that is copied
+            view = rng.choice(['direct', 'direct', 'copy', 'freeze', 'map_copy', 'items'])
+            lds = ds.shuffle(reshuffle=True, buffer_size=bs, rng=rr)
+            if view == 'copy':
+                lds = lds.copy()
+            elif view == 'freeze':
+                lds = lds.copy(freeze=True)
+            elif view == 'map_copy':
+                lds = lds.map(lambda x: x).copy(freeze=True)
+            lout = [kv[1] for kv in lds.items()] if (view == 'items' and isinstance(src, dict)) else list(lds)
             n_local += 1
             if sorted(lout) != sorted(vals):
-                fails.append(('local_shuffle_perm', {'values': vals, 'bs': bs, 'out': lout}))
+                fails.append(('local_shuffle_perm', {'values': vals, 'bs': bs, 'out': lout, 'view': view}))
             for j, v in enumerate(lout):
                 if v in vals and vals.index(v) > j + bs - 1:
-                    fails.append(('local_shuffle_displacement', {'values': vals, 'bs': bs, 'out': lout, 'j': j}))
+                    fails.append(('local_shuffle_displacement', {'values': vals, 'bs': bs, 'out': lout, 'j': j, 'view': view}))
                     break
             choices = [int(c) for c in rr.choices]
             before, after = rr.shuffles[-1] if rr.shuffles else ([], [])
